@@ -483,18 +483,18 @@ theorem inv_step (r : Dec) (hr : r ≠ 0) (s : St) (g : Ghost) (ctx : Ctx) (op :
   cases op with
   | create amt => exact inv_op_create r hr s _ ctx amt pw hi1 rfl hh
   | deposit amt =>
-    have hne : s.coll.lsr ≠ 0 := by simpa using hop
+    have hne : s.coll.lsr ≠ 0 := by simpa [opCond] using hop
     exact inv_op_deposit r hr s _ ctx amt pw hi1 rfl hh hne
   | withdraw amt =>
-    have hne : s.coll.lsr ≠ 0 := by simpa using hop
+    have hne : s.coll.lsr ≠ 0 := by simpa [opCond] using hop
     exact inv_op_withdraw r hr s _ ctx amt pw hi1 rfl hh hne
   | close => exact inv_op_close r hr s _ ctx pw hi1 rfl
   | rewardCalc => exact inv_op_calc r hr s _ ctx pw hi1 rfl hh
   | lsrUpdate nr =>
-    simp only [Bool.and_eq_true, decide_eq_true_eq, Bool.or_eq_true, beq_iff_eq] at hop
+    simp only [opCond, Bool.and_eq_true, decide_eq_true_eq, Bool.or_eq_true, beq_iff_eq] at hop
     exact inv_op_lsr r hr s _ ctx nr pw hi1 rfl hh hop.1 hop.2
   | wlOn => exact inv_op_wlOn r s _ ctx pw hi1 rfl
-  | wlOff => simp at hop
+  | wlOff => simp [opCond] at hop
 
 theorem inv_run (r : Dec) (hr : r ≠ 0) : ∀ (h : Hist) (s : St) (g : Ghost), Inv r s g → goodHist s g.last h = true →
     Inv r (grun r s g h).1 (grun r s g h).2
@@ -762,5 +762,171 @@ theorem move_books (ops : FloatOps) (s : St) (ctx : Ctx) (l : Locker) (s' : St) 
   refine ⟨d0, by rw [booked_restamp]; exact b, by rw [c2]; exact c, _, k2, rfl, rfl, r1, ?_⟩
   show l1.net + d = l0.net + (l1.ret - l0.ret) + d
   omega
+
+
+/-! ## with the repair of D35 the time budget holds for ALL histories -/
+
+theorem accrue_coll (s : St) (ctx : Ctx) (l : Locker) (pw : Option Int) (s1 : St) (h : accrue s ctx l pw = .ok s1) :
+    s1.coll = s.coll ∧ s1.wl = s.wl := by
+  by_cases hw : s.wl = true
+  · by_cases hz : s.coll.lsr = 0
+    · rw [accrue_idle s ctx l pw (Or.inr hz)] at h; injection h with h; subst h; exact ⟨rfl, rfl⟩
+    · obtain ⟨a, b, _⟩ := accrue_running s ctx l pw s1 hw hz h; exact ⟨b, a⟩
+  · rw [accrue_idle s ctx l pw (Or.inl (by simpa using hw))] at h; injection h with h; subst h; exact ⟨rfl, rfl⟩
+
+theorem restampFix_running (s1 : St) (ctx : Ctx) (d : Int) (h : s1.coll.lsr ≠ 0) : restampFix s1 ctx d = restamp s1 ctx d := by
+  unfold restampFix restamp
+  cases s1.locker with
+  | none => rfl
+  | some l => simp [h]
+
+theorem stepFix_running (s : St) (ctx : Ctx) (op : Op) (pw : Option Int) (h : s.coll.lsr ≠ 0) :
+    stepFix s ctx op pw = step s ctx op pw := by
+  have key : ∀ (l : Locker) (d : Int), (accrue s ctx l pw).map (fun s1 => restampFix s1 ctx d)
+      = (accrue s ctx l pw).map (fun s1 => restamp s1 ctx d) := by
+    intro l d
+    cases ha : accrue s ctx l pw with
+    | ok s1 =>
+      have hc := (accrue_coll s ctx l pw s1 ha).1
+      simp only [Res.map]
+      rw [restampFix_running s1 ctx d (by rw [hc]; exact h)]
+    | err => rfl
+    | panic => rfl
+  cases op with
+  | deposit amt =>
+    unfold stepFix step
+    simp only []
+    split
+    · rfl
+    · split
+      · rfl
+      · exact key _ _
+  | withdraw amt =>
+    unfold stepFix step
+    simp only []
+    split
+    · rfl
+    · split
+      · rfl
+      · split
+        · rfl
+        · exact key _ _
+  | create _ => rfl
+  | close => rfl
+  | rewardCalc => rfl
+  | lsrUpdate _ => rfl
+  | wlOn => rfl
+  | wlOff => rfl
+
+theorem stepFix_other (s : St) (ctx : Ctx) (op : Op) (pw : Option Int)
+    (h : ∀ a, op ≠ .deposit a ∧ op ≠ .withdraw a) : stepFix s ctx op pw = step s ctx op pw := by
+  cases op with
+  | deposit a => exact absurd rfl (h a).1
+  | withdraw a => exact absurd rfl (h a).2
+  | create _ => rfl
+  | close => rfl
+  | rewardCalc => rfl
+  | lsrUpdate _ => rfl
+  | wlOn => rfl
+  | wlOff => rfl
+
+theorem accTermFix_eq (r : Dec) (s : St) (ctx : Ctx) (op : Op) (pw : Option Int) (h : stepFix s ctx op pw = step s ctx op pw) :
+    accTermFix r s ctx op pw = accTerm r s ctx op pw := by
+  unfold accTermFix accTerm; rw [h]
+
+/-- deposit / withdraw at rate zero with the repair: the locker keeps (gets) the flag, nothing is credited -/
+theorem inv_move_zero_fix (r : Dec) (hr : r ≠ 0) (s : St) (g : Ghost) (ctx : Ctx) (op : Op) (pw : Option Int)
+    (hi : Inv r s g) (hlast : g.last = ctx.now) (hz : s.coll.lsr = 0) (hop : (∃ a, op = .deposit a) ∨ (∃ a, op = .withdraw a)) :
+    Inv r ((stepFix s ctx op pw).getD s) ⟨ctx.now, g.pos, g.acc + accTermFix r s ctx op pw⟩ := by
+  have hidle : accTermFix r s ctx op pw = 0 := by
+    unfold accTermFix; simp [accrues_zero s op hz]
+  have hrne : s.coll.lsr ≠ r := by rw [hz]; exact fun h => hr h.symm
+  have hap : g.acc + 0 ≤ g.pos := by have := acc_le_pos r s g hi (Or.inr hrne); omega
+  rw [hidle]
+  have keep : Inv r s ⟨ctx.now, g.pos, g.acc + 0⟩ := by rw [← hlast]; exact inv_keep r s g hi
+  -- shape of the result
+  have shape : (stepFix s ctx op pw).getD s = s ∨
+      ∃ l d, s.locker = some l ∧ (stepFix s ctx op pw).getD s = restampFix s ctx d := by
+    rcases hop with ⟨a, e⟩ | ⟨a, e⟩
+    · subst e
+      unfold stepFix
+      simp only []
+      split
+      · exact Or.inl rfl
+      · split
+        · exact Or.inl rfl
+        · rename_i l hl
+          rw [accrue_idle s ctx l pw (Or.inr hz)]
+          exact Or.inr ⟨l, a, hl, rfl⟩
+    · subst e
+      unfold stepFix
+      simp only []
+      split
+      · exact Or.inl rfl
+      · split
+        · exact Or.inl rfl
+        · rename_i l hl
+          split
+          · exact Or.inl rfl
+          · rw [accrue_idle s ctx l pw (Or.inr hz)]
+            exact Or.inr ⟨l, -a, hl, rfl⟩
+  rcases shape with e | ⟨l, d, hl, e⟩
+  · rw [e]; exact keep
+  · rw [e]
+    unfold restampFix
+    rw [hl]
+    simp only [hz, if_true]
+    refine inv_stamped r hr _ _ _ _ _ hi.1 hi.2.1 rfl ?_ ?_ hap
+    · intro hne; exact absurd hz hne
+    · intro _; rfl
+
+theorem inv_stepFix (r : Dec) (hr : r ≠ 0) (s : St) (g : Ghost) (ctx : Ctx) (op : Op) (pw : Option Int)
+    (hi : Inv r s g) (hg : goodStepFix s g.last ctx op pw = true) :
+    Inv r ((stepFix s ctx op pw).getD s) (gstepFix r s g ctx op pw) := by
+  unfold goodStepFix at hg
+  simp only [Bool.and_eq_true, decide_eq_true_eq] at hg
+  obtain ⟨⟨ht, hh⟩, hop⟩ := hg
+  have hi1 := inv_time r s g ctx.now hi ht
+  -- everything except deposit / withdraw at rate zero is a step of the unrepaired model that `goodStep` allows
+  have reuse : stepFix s ctx op pw = step s ctx op pw → goodStep s g.last ctx op pw = true →
+      Inv r ((stepFix s ctx op pw).getD s) (gstepFix r s g ctx op pw) := by
+    intro e hgs
+    have := inv_step r hr s g ctx op pw hi hgs
+    unfold gstepFix
+    rw [e, accTermFix_eq r s ctx op pw e]
+    exact this
+  have good_of (hc : opCond s ctx op pw = true) : goodStep s g.last ctx op pw = true := by
+    unfold goodStep
+    simp only [Bool.and_eq_true, decide_eq_true_eq]
+    exact ⟨⟨ht, hh⟩, hc⟩
+  by_cases hz : s.coll.lsr = 0
+  · cases op with
+    | deposit a => exact inv_move_zero_fix r hr s _ ctx _ pw hi1 rfl hz (Or.inl ⟨a, rfl⟩)
+    | withdraw a => exact inv_move_zero_fix r hr s _ ctx _ pw hi1 rfl hz (Or.inr ⟨a, rfl⟩)
+    | create a => exact reuse rfl (good_of rfl)
+    | close => exact reuse rfl (good_of rfl)
+    | rewardCalc => exact reuse rfl (good_of rfl)
+    | lsrUpdate nr => exact reuse rfl (good_of hop)
+    | wlOn => exact reuse rfl (good_of rfl)
+    | wlOff => simp [opCondFix] at hop
+  · have e := stepFix_running s ctx op pw hz
+    cases op with
+    | deposit a => exact reuse e (good_of (by simpa [opCond] using hz))
+    | withdraw a => exact reuse e (good_of (by simpa [opCond] using hz))
+    | create a => exact reuse rfl (good_of rfl)
+    | close => exact reuse rfl (good_of rfl)
+    | rewardCalc => exact reuse rfl (good_of rfl)
+    | lsrUpdate nr => exact reuse rfl (good_of hop)
+    | wlOn => exact reuse rfl (good_of rfl)
+    | wlOff => simp [opCondFix] at hop
+
+theorem inv_runFix (r : Dec) (hr : r ≠ 0) : ∀ (h : Hist) (s : St) (g : Ghost), Inv r s g → goodHistFix s g.last h = true →
+    Inv r (grunFix r s g h).1 (grunFix r s g h).2
+  | [], _, _, hi, _ => hi
+  | (ctx, op, pw) :: h, s, g, hi, hg => by
+    unfold goodHistFix at hg
+    simp only [Bool.and_eq_true] at hg
+    unfold grunFix
+    exact inv_runFix r hr h _ _ (inv_stepFix r hr s g ctx op pw hi hg.1) hg.2
 
 end Comdex.LockerAccrual
